@@ -171,6 +171,8 @@ def body_pairs(ctx):
         e = PAIR_ENTRIES[ctx.choose(len(PAIR_ENTRIES), 'entry%d' % i)]
         ops.append((m, e))
     threaded = bool(ctx.choose(2, 'threaded'))
+    # code handed to run() under the submission's own file name, or under another name (instructor-provided tests)
+    fname = ('answer.py', 'student_tests.py')[ctx.choose(2, 'filename')]
     if any(m in sc.COMPILE_FAIL and e != 'run-code' for m, e in ops):
         return
     funcs = "".join("def t_%d():\n%s\n    return 1\n" % (i, "\n".join("    " + l for l in sc.MODES[m].split("\n")))
@@ -179,7 +181,7 @@ def body_pairs(ctx):
     sb.threaded = threaded
     sb.allowed_time = 20
     sc.sb_cmds.run()
-    case = {'ops': ops, 'threaded': threaded}
+    case = {'ops': ops, 'threaded': threaded, 'filename': fname}
     ctx.observe(repr(case))
     ctx.set_sample(case)
     ctx.mark_nontrivial(repr(case))
@@ -188,7 +190,7 @@ def body_pairs(ctx):
         ctx.step((e, m))
         try:
             if e == 'run-code':
-                sc.sb_cmds.run(sc.MODES[m], filename='answer.py')
+                sc.sb_cmds.run(sc.MODES[m], filename=fname)
             elif e == 'call':
                 sc.sb_cmds.call('t_%d' % PAIR_MODES.index(m))
             else:
